@@ -261,6 +261,59 @@ pub fn check_dirs(rep: &mut Report, prop: &str, src: DynSrc, truth: &Truth, kind
         }
         rep.count("own_sub_directories_probes", 1);
     }
+    // ---- one read of the directory itself fails (the first, the second...): the load fails as a
+    // whole or, if it goes on, is complete; nothing partial is returned or cached
+    for d in truth.dirs.iter().filter(|d| truth.dirs.iter().any(|c| Truth::parent(c) == Some(d.as_str()))).take(if cfg!(miri) { 1 } else { 3 }) {
+        for nth in 0..3 {
+            probes += 1;
+            let fresh = AssetCache::without_hot_reloading(cache.raw_source());
+            cache.raw_source().clear();
+            let before = cache.raw_source().denied.load(std::sync::atomic::Ordering::SeqCst);
+            cache.raw_source().deny_dir_read(d, nth);
+            let mut want = rec_ids(truth, d, Elem::LeafA.exts(), None);
+            want.sort();
+            let got = fresh.load_rec_dir::<Leaf<1, 0, true>>(d).map(|h| {
+                let mut v: Vec<String> = h.read().ids().map(|s| s.to_string()).collect();
+                v.sort();
+                v
+            });
+            let fired = cache.raw_source().denied.load(std::sync::atomic::Ordering::SeqCst) != before;
+            cache.raw_source().clear();
+            if let Ok(mut got) = got {
+                if truth.lenient {
+                    got.retain(|g| want.contains(g));
+                }
+                if fired && got != want {
+                    rep.violation(
+                        "own-directory-read-fails",
+                        &format!("{prop}/{form}:partial-listing-after-failed-read-of-the-directory-itself"),
+                        json!({"dir": d, "failed_read_dir_number": nth, "got": got, "want": want}),
+                        scen.clone(),
+                    );
+                }
+            }
+            // whatever happened, the same call is complete once the source is fine again
+            if fired {
+                let again = fresh.load_rec_dir::<Leaf<1, 0, true>>(d).map(|h| {
+                    let mut v: Vec<String> = h.read().ids().map(|s| s.to_string()).collect();
+                    v.sort();
+                    if truth.lenient {
+                        v.retain(|g| want.contains(g));
+                    }
+                    v
+                });
+                if again.as_ref().ok() != Some(&want) {
+                    rep.violation(
+                        "own-directory-read-fails",
+                        &format!("{prop}/{form}:not-recovered-after-failed-read-of-the-directory-itself"),
+                        json!({"dir": d, "failed_read_dir_number": nth, "got": format!("{again:?}"), "want": want}),
+                        scen.clone(),
+                    );
+                }
+                rep.count("own_directory_read_faults", 1);
+            }
+        }
+    }
     // ---- an unreadable sub-directory is skipped without hiding its siblings
     let subdirs: Vec<String> = truth.dirs.iter().filter(|d| !d.is_empty()).cloned().collect();
     for sub in subdirs.iter().take(if cfg!(miri) { 1 } else { 4 }) {
